@@ -93,6 +93,8 @@ def judge(units, acc=None):
           _cnt(acc, "not judged: " + cp["undecided"])
         row.append(None)
         continue
+      if acc is not None and cp.get("bind_differs"):
+        _cnt(acc, "inspect.signature.bind differs from the real call (real call is the oracle)")
       errs = by_line.get(call_line[(k, i)], [])
       arity = sorted({n for n, _ in errs if n in ARITY})
       other = sorted({n for n, _ in errs if n not in ARITY})
@@ -161,6 +163,32 @@ def moves(kind, sig, call):
   if kind != "func":
     yield "func", sig, call
   used = set(call["kws"]) | set(call.get("dstar") or [])
+  # joint moves: a parameter together with the argument that feeds it
+  for g, letter in (("ko", "c"), ("pk", "b"), ("po", "a")):
+    for i in range(len(sig[g]) - 1, -1, -1):
+      n = f"{letter}{i}"
+      if n not in used:
+        continue
+      s2 = dict(sig)
+      s2[g] = sig[g][:i] + sig[g][i + 1:]
+      if not S.valid(s2):
+        continue
+      c2 = dict(call)
+      c2["kws"] = _renumber_kw([x for x in call["kws"] if x != n], letter, i)
+      if call.get("dstar") is not None:
+        c2["dstar"] = _renumber_kw([x for x in call["dstar"] if x != n], letter, i)
+      yield kind, s2, c2
+  if call["npos"] > 0 and (sig["po"] or sig["pk"]):
+    g, letter = ("po", "a") if sig["po"] else ("pk", "b")
+    if f"{letter}0" not in used:
+      s2 = dict(sig)
+      s2[g] = sig[g][1:]
+      if S.valid(s2):
+        c2 = dict(call, npos=call["npos"] - 1)
+        c2["kws"] = _renumber_kw(call["kws"], letter, 0)
+        if call.get("dstar") is not None:
+          c2["dstar"] = _renumber_kw(call["dstar"], letter, 0)
+        yield kind, s2, c2
   for g, letter in (("ko", "c"), ("pk", "b"), ("po", "a")):
     for i in range(len(sig[g]) - 1, -1, -1):
       if f"{letter}{i}" in used:
